@@ -28,6 +28,7 @@ Inductive qcmd :=
 | QEnqueue (k : nat) (a : Z)
 | QProcess | QProcessOne | QProcessIf (p : nat) | QProcessUntil (p : nat)
 | QPeek | QTake (r : nat) | QDispatchTaken (r : nat) | QClear | QEmpty | QLedger
+| QWaitFor0   (* waitFor with a zero time-out (no DisableQueueNotify in this domain): what its predicate says now *)
 | QFinal.   (* the queue is destroyed: only what the caller took out is still alive *)
 
 Inductive qev :=
@@ -345,6 +346,8 @@ Section QInterp.
           end
       | QEmpty =>
           Some (qlog st (QRet (GenQ.empty_queue (match qlist st with [] => true | _ => false end) (Z.of_nat (ecount st)))))
+      | QWaitFor0 =>
+          Some (qlog st (QRet (GenQ.can_process (match qlist st with [] => true | _ => false end) (Z.of_nat (ecount st)) 0%Z)))
       | QLedger => Some (qlog st (QLive (livep st)))
       | QFinal => Some (qlog (upd_q st [] []) (QLive (length (tregs st))))
       end.
